@@ -1009,6 +1009,25 @@ func registerDBModels() {
 		_, uf := x.boxFn(x.sortOf(t))
 		return &CV{T: App(x.sortOf(t), uf, App(SBox, "ibox", x.cvTerm(v, nil))), Ty: t}, nil
 	}
+	// callresult(F, k): the value returned by the k-th call of function/method F
+	// executed so far in this function (ghost name for an unnamed temporary)
+	contractBuiltins["callresult"] = func(x *Exec, env *CEnv, n *CCall) (*CV, error) {
+		if len(n.Args) != 2 {
+			return nil, fmt.Errorf("callresult(F, k)")
+		}
+		id, ok := n.Args[0].(*CIdent)
+		k, ok2 := n.Args[1].(*CInt)
+		if !ok || !ok2 || env.fr == nil {
+			return nil, fmt.Errorf("callresult: expected a function name and a constant")
+		}
+		vs := env.fr.callVals[id.Name]
+		if int(k.V.Int64()) >= len(vs) {
+			return nil, fmt.Errorf("callresult: %s has been called %d times here", id.Name, len(vs))
+		}
+		v := vs[k.V.Int64()]
+		cv := x.cvOfVal(v)
+		return cv, nil
+	}
 	contractBuiltins["fetched"] = func(x *Exec, env *CEnv, n *CCall) (*CV, error) {
 		v, err := x.eval(env, n.Args[0])
 		if err != nil {
